@@ -64,7 +64,10 @@ void World::auditI2()
         if (F.kind() == FK_IDX) continue;
         std::vector<EdgeSlot*> es;
         for (EdgeSlot* e : edges) {
-            if (e->forest == int(fi) && e->oracle && e->tab.exact()) es.push_back(e);
+            if (e->forest != int(fi) || !e->oracle || !e->tab.exact()) continue;
+            // EV*: identity of edges is claimed only where float arithmetic is exact
+            if (F.kind() == FK_EVT && !e->tab.pow2()) continue;
+            es.push_back(e);
         }
         for (size_t i = 0; i < es.size(); i++) {
             for (size_t j = i + 1; j < es.size(); j++) {
@@ -479,7 +482,10 @@ void World::auditAfterStep(bool force_all)
             F.audit_sig = sig;
             auditForestStructure(F);
             if (failed()) return;
-            auditRefcounts(F);
+            // an EV* operation that raised an error abandons nodes under
+            // construction without returning their references (error paths are
+            // outside C06); exact counts are not demanded there afterwards
+            if (!(F.errored && F.kind() == FK_EVT)) auditRefcounts(F);
             if (failed()) return;
             auditCacheCounts(F);
             if (failed()) return;
